@@ -1363,7 +1363,14 @@ func run(c *driver.Ctx) {
 		offScr  = 2_000_000
 		offProc = 3_000_000
 		offExp  = 4_000_000
+		offObs  = 5_000_000
 	)
+	for i := int64(0); i < int64(c.N(160, 4000)); i++ {
+		if c.Want(offObs + i) {
+			// the case index (offset by the shard) walks signal x number of static attributes systematically
+			runObs(c, genObs(c.CaseRand(offObs+i), i+int64(c.Shard)*7))
+		}
+	}
 	for i := int64(0); i < int64(c.N(120, 6000)); i++ {
 		if c.Want(offRecv + i) {
 			runRecv(c, genRecv(c.CaseRand(offRecv+i)))
